@@ -70,6 +70,7 @@ def atomsForBytes : List α → Nat → Option Nat
 def byteSlice (s : List α) (a b : Int) : R (List α) :=
   let n : Int := byteLen cx s
   if a < 0 ∨ b < a ∨ b > n then throw .slice
+  else if a == b then pure []      -- an empty slice is valid wherever it is cut
   else
     match atomsForBytes cx s a.toNat, atomsForBytes cx s b.toNat with
     | some i, some j => pure ((s.drop i).take (j - i))
@@ -106,14 +107,22 @@ def Editor.charsTo (ed : Editor α) (end_ : Int) : R (Editor α) := ed.chars cx 
 /-- Editor.CharCount -/
 def Editor.charCount (ed : Editor α) : Nat := gLen cx ed.text
 
+/-- `s[:a] + t + s[b:]` with byte offsets. When an offset is not on a rune boundary the pieces
+are not valid UTF-8 on their own; the concatenation is valid again only in the degenerate
+case `a = b`, `t = ""` (the original string). -/
+def spliceBytes (s : List α) (a b : Int) (t : List α) : R (List α) :=
+  let n : Int := byteLen cx s
+  if a < 0 ∨ a > n ∨ b < 0 ∨ b > n then throw .slice
+  else
+    match atomsForBytes cx s a.toNat, atomsForBytes cx s b.toNat with
+    | some i, some j => pure (s.take i ++ t ++ s.drop j)
+    | _, _ => if a == b ∧ t.isEmpty then pure s else throw .invalidUtf8
+
 /-- Editor.Commit -/
 def Editor.commit : Editor α → R (Editor α)
   | .root t o => pure (.root t o)
   | .sub t _ parent a b => do
-    let n : Int := byteLen cx parent.text
-    let pre ← byteSlice cx parent.text 0 a
-    let suf ← byteSlice cx parent.text b n
-    pure (parent.withText (pre ++ t ++ suf))
+    pure (parent.withText (← spliceBytes cx parent.text a b t))
 
 def commitAllFuel : Nat → Editor α → R (Editor α)
   | 0, ed => if ed.isSub then throw .fuel else pure ed
